@@ -1,9 +1,459 @@
-/- C06 driver: not written yet -/
+/-
+  C06 driver: replays what the real derivative / Jacobian / feature evaluators did
+  (harness/deriv.cpp output) through the model of LibfiveModel/Deriv.lean.
+
+  * `deriv`  : every clause's three derivative lanes are recomputed by the model kernel `dk`
+               from the REAL operand values and REAL operand lanes (so each kernel is compared
+               in isolation, no error accumulation), at Float32 and at binary64; the tolerance
+               is derived from the f32/f64 gap and a perturbation of the operand values
+               (multi-operation kernels are FMA-contracted in the C++, never bit-compared).
+               Selection kernels (min max abs neg add sub mod const-var nanfill compare) are
+               compared exactly.
+  * `jac`    : `jacGradient` (slot packing, seeds, clear_vars) on the real slot values.
+  * `feat`   : `featList` with the oracle answered from the table of real `Feature::push` answers
+               and the real stale scratch; feature lists compared exactly (as multisets).
+  Output: `ok …` / `MISMATCH …` / `skip …` / `hyp …` (a theorem hypothesis that fails on this case).
+-/
 import Driver.Parse
+import LibfiveModel.DerivFloat
+open Libfive
 
 namespace Driver.C06
 
-def run (_args : List String) (lines : Array String) : Array String :=
-  #[s!"MISMATCH driver-not-implemented {lines.size}"]
+structure Deck where
+  n : Nat := 0
+  x : Nat := 0
+  y : Nat := 0
+  z : Nat := 0
+  consts : List (Nat × Float32) := []
+  vars : List (Nat × Float32) := []     -- in deck->vars.left order
+
+def f32! (s : String) : Float32 := (F32.parseF32 s).getD (Float32.ofBits 0x7fc00000)
+
+def parseDeck (ws : List String) : Deck := Id.run do
+  match ws with
+  | n :: x :: y :: z :: "consts" :: k :: rest =>
+    let k := nat! k
+    let ra := rest.toArray
+    let cs := (List.range k).map fun i => (nat! (ra.getD (2*i) ""), f32! (ra.getD (2*i+1) ""))
+    let rest := rest.drop (2*k)
+    match rest with
+    | "vars" :: m :: rest =>
+      let m := nat! m
+      let ra := rest.toArray
+      let vs := (List.range m).map fun i => (nat! (ra.getD (3*i) ""), f32! (ra.getD (3*i+2) ""))
+      return { n := nat! n, x := nat! x, y := nat! y, z := nat! z, consts := cs, vars := vs }
+    | _ => return { n := nat! n, x := nat! x, y := nat! y, z := nat! z, consts := cs }
+  | _ => return {}
+
+def arrGet (a : Array Float32) (i : Nat) : Float32 := a.getD i 0
+
+/-- selection / single-operation kernels: compared exactly -/
+def exactKernel : Op → Bool
+  | .add | .sub | .neg | .min | .max | .abs | .mod | .constVar | .nanfill | .compare => true
+  | _ => false
+
+def fin (x : Float) : Bool := !x.isNaN && !x.isInf
+
+/-- tolerance for one kernel evaluation (see header) -/
+def kernelTol (cv : Bool) (op : Op) (av bv ov ad bd : Float32) : Float × Float × Float32 :=
+  let m32 := dk dopsF32 cv op av bv ov ad bd
+  let A := av.toFloat; let B := bv.toFloat; let V := ov.toFloat
+  let da := ad.toFloat; let db := bd.toFloat
+  let m64 := dk dopsF64 cv op A B V da db
+  let e := 2e-6
+  let p1 := dk dopsF64 cv op (A * (1 + e)) B V da db
+  let p2 := dk dopsF64 cv op (A * (1 - e)) B V da db
+  let p3 := dk dopsF64 cv op A (B * (1 + e)) V da db
+  let p4 := dk dopsF64 cv op A (B * (1 - e)) V da db
+  let p5 := dk dopsF64 cv op A B (V * (1 + e)) da db
+  let pert := [p1, p2, p3, p4, p5].foldl (fun acc p => max acc (p - m64).abs) 0
+  let tol := 8 * (m32.toFloat - m64).abs + 2e-5 * m64.abs + 2e-6 * (da.abs + db.abs) + 2 * pert + 1e-30
+  (m64, tol, m32)
+
+structure St where
+  case : String := ""
+  deck : Deck := {}
+  base : TapeM := {t := [], root := 0}
+  q : Nat := 0
+  slots : Array Float32 := #[]
+  qline : List String := []
+  -- feature query state
+  ftape : TapeM := {t := [], root := 0}
+  csimd : Nat := 0
+  stale : List (Nat × Array Float32) := []
+  fraw : List String := []
+  fraw2 : List String := []
+  fslots : List String := []
+  otable : List String := []
+  flist : List String := []
+
+/-! ### feature protocol parsing -/
+
+def parseV3 (ws : List String) : V3 Float32 × List String :=
+  match ws with
+  | a :: b :: c :: rest => (⟨f32! a, f32! b, f32! c⟩, rest)
+  | _ => (⟨0, 0, 0⟩, [])
+
+def parseV3s : Nat → List String → List (V3 Float32) × List String
+  | 0, ws => ([], ws)
+  | k + 1, ws =>
+    let (v, ws) := parseV3 ws
+    let (vs, ws) := parseV3s k ws
+    (v :: vs, ws)
+
+/-- `F dx dy dz ne (e)*` -/
+def parseFeat (ws : List String) : Option (Feat Float32 × List String) :=
+  match ws with
+  | "F" :: rest =>
+    let (d, rest) := parseV3 rest
+    match rest with
+    | ne :: rest =>
+      let (es, rest) := parseV3s (nat! ne) rest
+      some ({ deriv := d, eps := es }, rest)
+    | _ => none
+  | _ => none
+
+def parseFeats : Nat → List String → List (Feat Float32) × List String
+  | 0, ws => ([], ws)
+  | k + 1, ws =>
+    match parseFeat ws with
+    | some (f, ws) =>
+      let (fs, ws) := parseFeats k ws
+      (f :: fs, ws)
+    | none => ([], ws)
+
+/-- `S k n (F…)*` repeated -/
+partial def parseFSlots (ws : List String) (acc : List (Nat × List (Feat Float32))) :
+    List (Nat × List (Feat Float32)) :=
+  match ws with
+  | "S" :: k :: n :: rest =>
+    let (fs, rest) := parseFeats (nat! n) rest
+    parseFSlots rest ((nat! k, fs) :: acc)
+  | _ => acc.reverse
+
+/-- one logged query of the real `Feature::push`: (eps-in, e) ↦ (ok, eps-out) -/
+structure PushQ where
+  ein : List (V3 Float32)
+  e : V3 Float32
+  ok : Bool
+  eout : List (V3 Float32)
+
+partial def parseOTable (ws : List String) (acc : List PushQ) : List PushQ :=
+  match ws with
+  | "Z" :: _ :: _ :: _ :: rest => parseOTable rest acc
+  | "NZ" :: _ :: _ :: _ :: rest => parseOTable rest acc
+  | "P" :: n :: rest =>
+    let (ein, rest) := parseV3s (nat! n) rest
+    let (e, rest) := parseV3 rest
+    match rest with
+    | ok :: m :: rest =>
+      let (eout, rest) := parseV3s (nat! m) rest
+      parseOTable rest ({ ein := ein, e := e, ok := ok == "1", eout := eout } :: acc)
+    | _ => acc.reverse
+  | _ => acc.reverse
+
+def v3bits (a b : V3 Float32) : Bool :=
+  a.x.toBits == b.x.toBits && a.y.toBits == b.y.toBits && a.z.toBits == b.z.toBits
+
+def epsBits : List (V3 Float32) → List (V3 Float32) → Bool
+  | [], [] => true
+  | a :: as, b :: bs => v3bits a b && epsBits as bs
+  | _, _ => false
+
+/-- `Feature::operator<` -/
+def v3cmp (a b : V3 Float32) : Int :=
+  if a.x < b.x then -1 else if a.x > b.x then 1
+  else if a.y < b.y then -1 else if a.y > b.y then 1
+  else if a.z < b.z then -1 else if a.z > b.z then 1 else 0
+
+def featLt (f g : Feat Float32) : Bool :=
+  let rec go : List (V3 Float32) → List (V3 Float32) → Bool
+    | a :: as, b :: bs => let c := v3cmp a b; if c != 0 then c < 0 else go as bs
+    | _ :: _, [] => false
+    | [], _ :: _ => true
+    | [], [] => v3cmp f.deriv g.deriv < 0
+  go f.eps g.eps
+
+def insertSorted (f : Feat Float32) : List (Feat Float32) → List (Feat Float32)
+  | [] => [f]
+  | g :: rest => if featLt f g then f :: g :: rest else g :: insertSorted f rest
+
+def sortFeats (l : List (Feat Float32)) : List (Feat Float32) := l.foldr insertSorted []
+
+def sameEps (f g : Feat Float32) : Bool :=
+  f.eps.length == g.eps.length && (f.eps.zip g.eps).all fun (a, b) => v3eq a b
+
+def dist2 (a b : V3 Float32) : Float32 :=
+  let d := v3sub a b
+  d.x * d.x + d.y * d.y + d.z * d.z
+
+/-- `std::unique` with the predicate of eval_feature.cpp (compares with the last KEPT element) -/
+def uniqueFeats : List (Feat Float32) → List (Feat Float32)
+  | [] => []
+  | f :: rest =>
+    let rec go (last : Feat Float32) : List (Feat Float32) → List (Feat Float32)
+      | [] => []
+      | g :: rest =>
+        if (dist2 last.deriv g.deriv).toFloat ≤ 1e-10 && sameEps last g then go last rest
+        else g :: go g rest
+    f :: go f rest
+
+/-- the deduplication epilogue of `FeatureEvaluator::operator()` -/
+def dedupFeats (l : List (Feat Float32)) : List (Feat Float32) :=
+  if l.length ≤ 1 then l else
+  let u := uniqueFeats (sortFeats l)
+  match u with
+  | [] => []
+  | f :: _ =>
+    if u.all (fun g => (dist2 g.deriv f.deriv).toFloat < 1e-10) then [{ deriv := f.deriv, eps := [] }]
+    else u
+
+def featKey (f : Feat Float32) : String :=
+  let h (v : V3 Float32) := s!"{F32.toHex v.x}.{F32.toHex v.y}.{F32.toHex v.z}"
+  -- +0 / -0 are `==` for Eigen: canonicalise the sign of zero
+  let c (v : V3 Float32) : V3 Float32 := ⟨v.x + 0, v.y + 0, v.z + 0⟩
+  h (c f.deriv) ++ "|" ++ String.intercalate "," (f.eps.map fun e => h (c e))
+
+def sameMultiset (a b : List (Feat Float32)) : Bool :=
+  let ka := (a.map featKey).toArray.qsort (· < ·)
+  let kb := (b.map featKey).toArray.qsort (· < ·)
+  ka == kb
+
+def showFeats (l : List (Feat Float32)) : String :=
+  String.intercalate " ; " (l.map featKey)
+
+/-! ### queries -/
+
+def leafSeed (d : Deck) (r : Nat) : Nat → Float32 := spatialSeed dopsF32 d.x d.y d.z r
+
+def checkDeriv (st : St) (lanes : Array Float32) : List String := Id.run do
+  let tag := s!"case {st.case} q {st.q}"
+  let v : Nat → Float32 := arrGet st.slots
+  let d (r : Nat) : Nat → Float32 := fun s => arrGet lanes (3 * s + r)
+  let mut out : List String := []
+  let mut nexact := 0
+  let mut ntol := 0
+  let mut nskip := 0
+  -- leaves keep their seeds
+  for r in [0, 1, 2] do
+    for s in [st.deck.x, st.deck.y, st.deck.z] do
+      if (d r s).toBits != (leafSeed st.deck r s).toBits then
+        out := out ++ [s!"MISMATCH seed {tag} slot {s} row {r}"]
+  for c in st.base.t.reverse do
+    for r in [0, 1, 2] do
+      let av := v c.a; let bv := v c.b; let ov := v c.id
+      let ad := d r c.a; let bd := d r c.b
+      let real := d r c.id
+      let (m64, tol, m32) := kernelTol false c.op av bv ov ad bd
+      if exactKernel c.op then
+        if f32eq m32 real then nexact := nexact + 1
+        else out := out ++ [s!"MISMATCH kernel-exact {tag} clause {c.id} {c.op.pname} row {r} model {F32.toHex m32} real {F32.toHex real}"]
+      else if m64.isNaN && real.isNaN then ntol := ntol + 1
+      else if !fin m64 || !fin real.toFloat || !fin tol then
+        if m32.toBits == real.toBits || (m32.isNaN && real.isNaN) then ntol := ntol + 1 else nskip := nskip + 1
+      else if (real.toFloat - m64).abs ≤ tol then ntol := ntol + 1
+      else out := out ++ [s!"MISMATCH kernel {tag} clause {c.id} {c.op.pname} row {r} model {F32.toHex m32} real {F32.toHex real} tol {tol}"]
+  -- whole-tape run of the model on the real values (decisions of every selection kernel)
+  let root := st.base.root
+  if out.isEmpty then
+    return [s!"ok deriv {tag} clauses {st.base.t.length} exact {nexact} tol {ntol} nonfinite {nskip} root {root}"]
+  else return out
+
+def checkJac (st : St) (ws : List String) : List String := Id.run do
+  -- ws: x y z nvars (clause idx hex)*
+  let tag := s!"case {st.case} q {st.q}"
+  match ws with
+  | _ :: _ :: _ :: nv :: rest =>
+    let nv := nat! nv
+    let ra := rest.toArray
+    let vars := ((List.range nv).map fun i => nat! (ra.getD (3 * i) "")).toArray
+    let real := ((List.range nv).map fun i => f32! (ra.getD (3 * i + 2) "")).toArray
+    let v : Nat → Float32 := arrGet st.slots
+    let v64a : Array Float := st.slots.map (·.toFloat)
+    let v64 : Nat → Float := fun s => v64a.getD s 0
+    let n := st.slots.size
+    let m32 := (jacGradientA dopsF32 256 vars v st.base.t st.base.root n).toArray
+    let m64 := (jacGradientA dopsF64 256 vars v64 st.base.t st.base.root n).toArray
+    -- a variable that IS the root: derivs() copies d(root) which the seeding wrote
+    let mut bad : List String := []
+    let mut nexact := 0
+    let mut nskip := 0
+    for i in List.range nv do
+      let a := m32.getD i 0; let b := m64.getD i 0; let r := real.getD i 0
+      if a.toBits == r.toBits || (a.isNaN && r.isNaN) then nexact := nexact + 1
+      else if !fin b || !fin r.toFloat then nskip := nskip + 1
+      else
+        let tol := 64 * (a.toFloat - b).abs + 1e-4 * b.abs + 1e-7
+        if (r.toFloat - b).abs ≤ tol then pure () else
+          bad := bad ++ [s!"MISMATCH jac {tag} var {i} slot {vars.getD i 0} model {F32.toHex a} real {F32.toHex r}"]
+    if bad.isEmpty then return [s!"ok jac {tag} vars {nv} bitexact {nexact} nonfinite {nskip}"]
+    else return bad.take 3
+  | _ => return [s!"MISMATCH parse {tag} jac"]
+
+/-- the oracle answered from the table of real answers (bit-exact lookup) -/
+def tablePush (tab : List PushQ) (es : List (V3 Float32)) (e : V3 Float32) : Option (Option (List (V3 Float32))) :=
+  match tab.find? (fun q => epsBits q.ein es && v3bits q.e e) with
+  | some q => some (if q.ok then some q.eout else none)
+  | none => none
+
+def checkFeat (st : St) : List String := Id.run do
+  let tag := s!"case {st.case} q {st.q}"
+  let v : Nat → Float32 := arrGet st.slots
+  let tab := parseOTable st.otable []
+  let realSlots := parseFSlots st.fslots []
+  let realF : Nat → List (Feat Float32) := fun s => match realSlots.find? (·.1 == s) with
+    | some (_, l) => l
+    | none => []
+  -- missing oracle answers are recorded through a sentinel epsilon list
+  let sentinel : V3 Float32 := ⟨Float32.ofBits 0x7fc00001, 0, 0⟩
+  let F : FeatOracle Float32 :=
+    { push := fun es e => match tablePush tab es e with
+        | some r => r
+        | none => some [sentinel]
+      normZero := v3normZero, veq := v3eq, sub := v3sub, negv := v3neg }
+  let LANES := 40
+  let staleOf (id : Nat) : Array Float32 := match st.stale.find? (·.1 == id) with
+    | some (_, a) => a
+    | none => #[]
+  let staleV : Nat → Nat → Float32 := fun id l => arrGet (staleOf id) (4 * l)
+  let staleD : Nat → Nat → V3 Float32 := fun id l =>
+    let a := staleOf id; ⟨arrGet a (4 * l + 1), arrGet a (4 * l + 2), arrGet a (4 * l + 3)⟩
+  -- clause by clause on the REAL operand feature lists
+  let mut out : List String := []
+  let mut hyp : List String := []
+  let mut cs := st.csimd
+  let mut nties := 0
+  let mut nclauses := 0
+  for c in st.ftape.t.reverse do
+    let fa := realF c.a; let fb := realF c.b
+    let S : FeatScratch Float32 := ⟨cs, staleD, staleV⟩
+    let (raw, cs') := featClauseRaw dopsF32 F false 256 16 S c v realF
+    let model := dedupFeats raw
+    let real := realF c.id
+    nclauses := nclauses + 1
+    let tied := (c.op == Op.min || c.op == Op.max) && c.a != c.b && !(v c.a < v c.b) && !(v c.b < v c.a)
+    if tied then nties := nties + 1
+    -- hypotheses of `feature_is_branch_gradient`
+    let isMinMax := c.op == Op.min || c.op == Op.max
+    if !isMinMax && c.op.args == some 2 && fa.length * fb.length > cs then
+      hyp := hyp ++ [s!"hyp setCount {tag} clause {c.id} {c.op.pname} pairs {fa.length * fb.length} count_simd {cs}"]
+    if c.op == Op.sqrt && fa.length > 1 then
+      hyp := hyp ++ [s!"hyp sqrt-ov {tag} clause {c.id} features {fa.length}"]
+    if !isMinMax && (fa.length > LANES || fa.length * fb.length > LANES) then
+      out := out ++ [s!"skip lanes {tag} clause {c.id}"]
+    else if raw.any (fun f => f.eps.any (fun e => e.x.toBits == sentinel.x.toBits)) then
+      out := out ++ [s!"MISMATCH oracle-miss {tag} clause {c.id} {c.op.pname}"]
+    else if isMinMax || exactKernel c.op then
+      if !sameMultiset model real then
+        out := out ++ [s!"MISMATCH feat {tag} clause {c.id} {c.op.pname} model {showFeats model} real {showFeats real}"]
+    else
+      -- inexact kernel: same count and epsilons, derivatives within tolerance (greedy matching)
+      let ok := model.length == real.length &&
+        model.all fun m => real.any fun r => sameEps m r &&
+          ((dist2 m.deriv r.deriv).toFloat ≤ 1e-8 * (1 + (dist2 m.deriv ⟨0,0,0⟩).toFloat) || v3eqN m.deriv r.deriv)
+      if !ok then
+        out := out ++ [s!"MISMATCH feat-num {tag} clause {c.id} {c.op.pname} model {showFeats model} real {showFeats real}"]
+    cs := cs'
+  -- root: raw list and deduplicated list
+  let (rawN, rest) := match st.fraw with | n :: r => (nat! n, r) | [] => (0, [])
+  let (rawReal, _) := parseFeats rawN rest
+  if !sameMultiset rawReal (realF st.ftape.root) then
+    out := out ++ [s!"MISMATCH feat-root {tag}"]
+  let (nl, restl) := match st.flist with | n :: r => (nat! n, r) | [] => (0, [])
+  let (lst, _) := parseV3s nl restl
+  let (raw2N, rest2) := match st.fraw2 with | n :: r => (nat! n, r) | [] => (0, [])
+  let (raw2, _) := parseFeats raw2N rest2
+  let modelList := uniqDerivs v3eq raw2
+  if !(modelList.length == lst.length && (modelList.zip lst).all fun (a, b) => v3eqN a b) then
+    out := out ++ [s!"MISMATCH flist {tag} model {modelList.length} real {lst.length}"]
+  let bad := out.filter (·.startsWith "MISMATCH")
+  if bad.isEmpty then
+    return hyp ++ out ++ [s!"ok feat {tag} clauses {nclauses} ties {nties} rootfeatures {rawReal.length} oracle-queries {tab.length}"]
+  else return hyp ++ out
+
+def checkInside (st : St) (ws : List String) : List String :=
+  -- ws: <inside> root <id> checks n (pos neg normpos)*
+  let tag := s!"case {st.case} q {st.q}"
+  match ws with
+  | ins :: "root" :: root :: "checks" :: n :: rest =>
+    let n := nat! n
+    let ra := rest.toArray
+    let value := arrGet st.slots (nat! root)
+    let realSlots := parseFSlots st.fslots []
+    let fs : List (Feat Float32) := match realSlots.find? (·.1 == nat! root) with
+      | some (_, l) => l | none => []
+    -- the `check` oracle answered positionally from the real answers
+    let idxOf (f : Feat Float32) : Nat := (fs.findIdx? (fun g => featKey g == featKey f)).getD 0
+    let check : Feat Float32 → V3 Float32 → Bool := fun f d =>
+      let i := idxOf f
+      if v3bits d f.deriv then ra.getD (3 * i) "" == "1" else ra.getD (3 * i + 1) "" == "1"
+    let normPos : V3 Float32 → Bool := fun d =>
+      let i := (fs.findIdx? (fun g => v3bits g.deriv d)).getD 0
+      ra.getD (3 * i + 2) "" == "1"
+    let model := isInsideM (fun a b => decide (a < b)) (0 : Float32) value normPos v3neg check fs
+    if value != 0 && fs.length != n then
+      -- unambiguous: features were not evaluated by isInside; the list is from features()
+      if model == (ins == "1") then [s!"ok inside-sign {tag}"] else [s!"MISMATCH inside {tag} model {model} real {ins}"]
+    else if model == (ins == "1") then [s!"ok inside {tag} value0 {value == 0} features {fs.length}"]
+    else [s!"MISMATCH inside {tag} model {model} real {ins}"]
+  | _ => [s!"MISMATCH parse {tag} inside"]
+
+partial def parseStale (lanes : Nat) (ws : List String) (acc : List (Nat × Array Float32)) :
+    List (Nat × Array Float32) :=
+  match ws with
+  | "C" :: id :: rest =>
+    let vals := (rest.take (4 * lanes)).map f32!
+    parseStale lanes (rest.drop (4 * lanes)) ((nat! id, vals.toArray) :: acc)
+  | _ => acc
+
+def handle (st : St) (line : String) : St × List String :=
+  let ws := words line
+  match ws with
+  | "case" :: k :: _ => ({ case := k }, [])
+  | "deck" :: rest => ({ st with deck := parseDeck rest }, [])
+  | "base" :: "tape" :: rest =>
+    match parseTape rest with
+    | some T =>
+      let o := if wfb T.t then s!"ok wf case {st.case}" else s!"MISMATCH wf case {st.case}"
+      ({ st with base := T }, [o])
+    | none => (st, [s!"MISMATCH parse case {st.case} base"])
+  | "deriv" :: rest => ({ st with q := st.q + 1, qline := "deriv" :: rest }, [])
+  | "jac" :: rest => ({ st with q := st.q + 1, qline := "jac" :: rest }, [])
+  | "feat" :: _ :: _ :: _ :: "value" :: _ :: "csimd" :: cs :: _ =>
+    ({ st with q := st.q + 1, qline := ["feat"], csimd := nat! cs }, [])
+  | "ftape" :: "tape" :: rest =>
+    match parseTape rest with
+    | some T => ({ st with ftape := T }, [])
+    | none => (st, [s!"MISMATCH parse case {st.case} ftape"])
+  | "stale" :: lanes :: rest => ({ st with stale := parseStale (nat! lanes) rest [] }, [])
+  | "fraw" :: rest => ({ st with fraw := rest }, [])
+  | "fraw2" :: rest => ({ st with fraw2 := rest }, [])
+  | "fslots" :: _ :: rest => ({ st with fslots := rest }, [])
+  | "otable" :: _ :: rest => ({ st with otable := rest }, [])
+  | "flist" :: rest =>
+    let st := { st with flist := rest }
+    (st, checkFeat st)
+  | "inside" :: rest => (st, checkInside st rest)
+  | "slots" :: _ :: rest =>
+    let st := { st with slots := (rest.map f32!).toArray }
+    match st.qline with
+    | "jac" :: args => (st, checkJac st args)
+    | _ => (st, [])
+  | "dlanes" :: _ :: rest => (st, checkDeriv st (rest.map f32!).toArray)
+  | "jacpost" :: "clear" :: c :: "seeds" :: a :: b :: d :: _ =>
+    let one := "3f800000"
+    if c == "0" && a == one && b == one && d == one then (st, [s!"ok jacpost case {st.case} q {st.q}"])
+    else (st, [s!"MISMATCH jacpost case {st.case} q {st.q} clear {c} seeds {a} {b} {d}"])
+  | _ => (st, [])
+
+def run (_args : List String) (lines : Array String) : Array String := Id.run do
+  let mut st : St := {}
+  let mut out : Array String := #[]
+  for l in lines do
+    let (st', o) := handle st l
+    st := st'
+    for x in o do out := out.push x
+  return out
 
 end Driver.C06
